@@ -166,6 +166,90 @@ def parse_sexp(text):
     return res
 
 
+class AnchorCoverage:
+    """Which lines of the source files anchored by the property did this run execute?  (DESIGN.md 5.5)
+
+    Uses sys.monitoring (PEP 669): every line event of an anchored file is recorded once and then
+    disabled for that location, so the cost is negligible.  Worker processes forked by Ctx.pmap inherit
+    the tool and ship their newly seen lines back with each result.  Coverage is *evidence* (what the
+    streams could possibly have seen); it never decides a check."""
+    TOOL = 4
+
+    def __init__(self, files):
+        self.files = {os.path.realpath(f) for f in files if os.path.exists(f)}
+        self.seen = set()      # (path, line)
+        self._sent = set()
+        self.active = False
+
+    def start(self):
+        mon = getattr(sys, "monitoring", None)
+        if mon is None or not self.files:
+            return
+        try:
+            mon.use_tool_id(self.TOOL, "wverif-anchor-coverage")
+        except ValueError:
+            return
+        files, seen = self.files, self.seen
+        cache = {}
+
+        def on_line(code, line):
+            fn = code.co_filename
+            ok = cache.get(fn)
+            if ok is None:
+                ok = cache[fn] = os.path.realpath(fn) in files
+            if ok:
+                seen.add((fn, line))
+            return mon.DISABLE
+        mon.register_callback(self.TOOL, mon.events.LINE, on_line)
+        mon.set_events(self.TOOL, mon.events.LINE)
+        self.active = True
+
+    def delta(self):
+        new = self.seen - self._sent
+        self._sent |= new
+        return new
+
+    def report(self):
+        """{relative file: {executable/executed lines inside function bodies, functions never entered}}"""
+        res = {}
+        by_file = {}
+        for fn, ln in self.seen:
+            by_file.setdefault(os.path.realpath(fn), set()).add(ln)
+        for path in sorted(self.files):
+            try:
+                top = compile(open(path, encoding="utf-8").read(), path, "exec")
+            except Exception:
+                continue
+            lines, never = set(), []
+            got = by_file.get(path, set())
+
+            def walk(co, qual):
+                own = {l for (_, _, l) in co.co_lines() if l}
+                if co.co_flags & 1:   # CO_OPTIMIZED: a function body (module and class bodies ran at import)
+                    body = own - {co.co_firstlineno}
+                    lines.update(body)
+                    if body and not (body & got) and not co.co_name.startswith("<"):
+                        never.append(qual)
+                for c in co.co_consts:
+                    if hasattr(c, "co_lines"):
+                        walk(c, (qual + "." if qual else "") + c.co_name)
+            walk(top, "")
+            rel = os.path.relpath(path, os.path.dirname(REPO_SRC))
+            res[rel] = {"executable_lines": len(lines), "executed_lines": len(lines & got),
+                        "functions_never_entered": sorted(never)[:80],
+                        "functions_never_entered_count": len(never)}
+        return res
+
+
+_COV = None          # AnchorCoverage of the running check (inherited by forked workers)
+_PMAP_FN = None
+
+
+def _pmap_call(x):
+    r = _PMAP_FN(x)
+    return r, (_COV.delta() if _COV is not None and _COV.active else None)
+
+
 class Ctx:
     def __init__(self, pid, tier, seed):
         self.pid, self.tier, self.seed = pid, tier, seed
@@ -248,8 +332,21 @@ class Ctx:
         if self.workers <= 1 or len(items) <= 1:
             return [fn(x) for x in items]
         import multiprocessing as mp
-        with mp.get_context("fork").Pool(min(self.workers, len(items))) as pool:
-            return pool.map(fn, items, chunksize)
+        global _PMAP_FN
+        _PMAP_FN = fn
+        if _COV is not None:
+            _COV._sent = set(_COV.seen)   # workers ship only what they see beyond the parent
+        try:
+            with mp.get_context("fork").Pool(min(self.workers, len(items))) as pool:
+                out = pool.map(_pmap_call, items, chunksize)
+        finally:
+            _PMAP_FN = None
+        res = []
+        for r, d in out:
+            res.append(r)
+            if d and _COV is not None:
+                _COV.seen |= d
+        return res
 
 
 # ------------------------------------------------------------------------------------------------
@@ -329,6 +426,18 @@ def leanchecker(modules):
 
 
 # ------------------------------------------------------------------------------------------------
+
+def anchor_paths(pid):
+    """Absolute paths of the source files the property is anchored in (properties.jsonl)."""
+    res = []
+    for line in open(os.path.join(ROOT, "properties.jsonl")):
+        rec = json.loads(line)
+        if rec["id"] == pid:
+            for rel in rec["anchors"]["files"]:
+                res.append(os.path.join(os.path.dirname(REPO_SRC), rel) if rel.startswith("src/")
+                           else os.path.join(REPO_SRC, rel))
+    return res
+
 
 def changed_anchor_files(pid):
     """Anchored source files of the property whose normalised AST differs from fingerprints.json."""
@@ -477,6 +586,10 @@ def run_check(ctx, mod, args, t0):
     if ctx.changed_files:
         ctx.boost = int(os.environ.get("VERIF_BOOST", "2"))
         ctx.note("anchored files differ from the fingerprinted tree: budgets x%d" % ctx.boost)
+    global _COV
+    if not os.environ.get("VERIF_NO_COVERAGE"):
+        _COV = AnchorCoverage(anchor_paths(pid))
+        _COV.start()
     mod.run(ctx)
     # 6. decision ---------------------------------------------------------------------------------
     known = [k for k in load_known() if k.get("property") == pid]
@@ -530,6 +643,7 @@ def run_check(ctx, mod, args, t0):
         "divergences": len(ctx.divergences), "proof_gaps": ctx.proof_gaps,
         "known_findings_seen": seen_known, "notes": ctx.notes,
         "fingerprints_changed": ctx.changed_files,
+        "anchor_coverage": (_COV.report() if _COV is not None and _COV.active else "unavailable"),
         "explanation": getattr(mod, "EXPLANATION", ""),
     }
     ev = {"property_id": pid, "tier": ctx.tier, "seed": ctx.seed, "level": level, "coverage": cov,
